@@ -30,6 +30,7 @@ import (
 
 	"github.com/cronokirby/saferith"
 	"github.com/fxamacker/cbor/v2"
+	"github.com/taurusgroup/multi-party-sig/internal/safecbor"
 	"github.com/taurusgroup/multi-party-sig/internal/elgamal"
 	"github.com/taurusgroup/multi-party-sig/internal/params"
 	"github.com/taurusgroup/multi-party-sig/pkg/hash"
@@ -452,7 +453,7 @@ func sysSch() *zkSys {
 		wire:   func(r zrec) ([]byte, error) { return cbor.Marshal(prf(r)) },
 		unwire: func(data []byte, h *hash.Hash, pub zrec) (bool, error) {
 			p := zksch.EmptyProof(zkGroup)
-			if err := cbor.Unmarshal(data, p); err != nil {
+			if err := safecbor.Unmarshal(data, p); err != nil { // the handlers decode received content with safecbor
 				return false, err
 			}
 			return func() bool { X, gen := mk(pub); return p.Verify(h, X, gen) }(), nil
@@ -495,7 +496,7 @@ func sysLog() *zkSys {
 		wire:   func(r zrec) ([]byte, error) { return cbor.Marshal(prfOf(r)) },
 		unwire: func(data []byte, h *hash.Hash, pub zrec) (bool, error) {
 			p := zklog.Empty(zkGroup)
-			if err := cbor.Unmarshal(data, p); err != nil {
+			if err := safecbor.Unmarshal(data, p); err != nil { // the handlers decode received content with safecbor
 				return false, err
 			}
 			return p.Verify(h, pubOf(pub)), nil
@@ -534,7 +535,7 @@ func sysElog() *zkSys {
 		wire:   func(r zrec) ([]byte, error) { return cbor.Marshal(prfOf(r)) },
 		unwire: func(data []byte, h *hash.Hash, pub zrec) (bool, error) {
 			p := zkelog.Empty(zkGroup)
-			if err := cbor.Unmarshal(data, p); err != nil {
+			if err := safecbor.Unmarshal(data, p); err != nil { // the handlers decode received content with safecbor
 				return false, err
 			}
 			return p.Verify(h, pubOf(pub)), nil
@@ -571,7 +572,7 @@ func sysEnc() *zkSys {
 		wire:   func(r zrec) ([]byte, error) { return cbor.Marshal(prfOf(r)) },
 		unwire: func(data []byte, h *hash.Hash, pub zrec) (bool, error) {
 			p := &zkenc.Proof{}
-			if err := cbor.Unmarshal(data, p); err != nil {
+			if err := safecbor.Unmarshal(data, p); err != nil { // the handlers decode received content with safecbor
 				return false, err
 			}
 			return p.Verify(zkGroup, h, pubOf(pub)), nil
@@ -620,7 +621,7 @@ func sysLogstar() *zkSys {
 		wire:   func(r zrec) ([]byte, error) { return cbor.Marshal(prfOf(r)) },
 		unwire: func(data []byte, h *hash.Hash, pub zrec) (bool, error) {
 			p := zklogstar.Empty(zkGroup)
-			if err := cbor.Unmarshal(data, p); err != nil {
+			if err := safecbor.Unmarshal(data, p); err != nil { // the handlers decode received content with safecbor
 				return false, err
 			}
 			return p.Verify(h, pubOf(pub)), nil
@@ -688,7 +689,7 @@ func sysAffg() *zkSys {
 		wire:   func(r zrec) ([]byte, error) { return cbor.Marshal(prfOf(r)) },
 		unwire: func(data []byte, h *hash.Hash, pub zrec) (bool, error) {
 			p := zkaffg.Empty(zkGroup)
-			if err := cbor.Unmarshal(data, p); err != nil {
+			if err := safecbor.Unmarshal(data, p); err != nil { // the handlers decode received content with safecbor
 				return false, err
 			}
 			return p.Verify(h, pubOf(pub)), nil
@@ -733,7 +734,7 @@ func sysAffp() *zkSys {
 		wire:   func(r zrec) ([]byte, error) { return cbor.Marshal(prfOf(r)) },
 		unwire: func(data []byte, h *hash.Hash, pub zrec) (bool, error) {
 			p := &zkaffp.Proof{}
-			if err := cbor.Unmarshal(data, p); err != nil {
+			if err := safecbor.Unmarshal(data, p); err != nil { // the handlers decode received content with safecbor
 				return false, err
 			}
 			return p.Verify(zkGroup, h, pubOf(pub)), nil
@@ -772,7 +773,7 @@ func sysEncelg() *zkSys {
 		wire:   func(r zrec) ([]byte, error) { return cbor.Marshal(prfOf(r)) },
 		unwire: func(data []byte, h *hash.Hash, pub zrec) (bool, error) {
 			p := zkencelg.Empty(zkGroup)
-			if err := cbor.Unmarshal(data, p); err != nil {
+			if err := safecbor.Unmarshal(data, p); err != nil { // the handlers decode received content with safecbor
 				return false, err
 			}
 			return p.Verify(h, pubOf(pub)), nil
@@ -821,7 +822,7 @@ func sysDec() *zkSys {
 		wire:   func(r zrec) ([]byte, error) { return cbor.Marshal(prfOf(r)) },
 		unwire: func(data []byte, h *hash.Hash, pub zrec) (bool, error) {
 			p := zkdec.Empty(zkGroup)
-			if err := cbor.Unmarshal(data, p); err != nil {
+			if err := safecbor.Unmarshal(data, p); err != nil { // the handlers decode received content with safecbor
 				return false, err
 			}
 			return p.Verify(h, pubOf(pub)), nil
@@ -870,7 +871,7 @@ func sysMul() *zkSys {
 		wire:   func(r zrec) ([]byte, error) { return cbor.Marshal(prfOf(r)) },
 		unwire: func(data []byte, h *hash.Hash, pub zrec) (bool, error) {
 			p := &zkmul.Proof{}
-			if err := cbor.Unmarshal(data, p); err != nil {
+			if err := safecbor.Unmarshal(data, p); err != nil { // the handlers decode received content with safecbor
 				return false, err
 			}
 			return p.Verify(zkGroup, h, pubOf(pub)), nil
@@ -909,7 +910,7 @@ func sysMulstar() *zkSys {
 		wire:   func(r zrec) ([]byte, error) { return cbor.Marshal(prfOf(r)) },
 		unwire: func(data []byte, h *hash.Hash, pub zrec) (bool, error) {
 			p := zkmulstar.Empty(zkGroup)
-			if err := cbor.Unmarshal(data, p); err != nil {
+			if err := safecbor.Unmarshal(data, p); err != nil { // the handlers decode received content with safecbor
 				return false, err
 			}
 			return p.Verify(zkGroup, h, pubOf(pub)), nil
@@ -952,7 +953,7 @@ func sysNth() *zkSys {
 		wire:   func(r zrec) ([]byte, error) { return cbor.Marshal(prfOf(r)) },
 		unwire: func(data []byte, h *hash.Hash, pub zrec) (bool, error) {
 			p := &zknth.Proof{}
-			if err := cbor.Unmarshal(data, p); err != nil {
+			if err := safecbor.Unmarshal(data, p); err != nil { // the handlers decode received content with safecbor
 				return false, err
 			}
 			return p.Verify(h, pubOf(pub)), nil
@@ -987,7 +988,7 @@ func sysFac() *zkSys {
 		wire:   func(r zrec) ([]byte, error) { return cbor.Marshal(prfOf(r)) },
 		unwire: func(data []byte, h *hash.Hash, pub zrec) (bool, error) {
 			p := &zkfac.Proof{}
-			if err := cbor.Unmarshal(data, p); err != nil {
+			if err := safecbor.Unmarshal(data, p); err != nil { // the handlers decode received content with safecbor
 				return false, err
 			}
 			return p.Verify(pubOf(pub), h), nil
@@ -1033,7 +1034,7 @@ func sysPrm() *zkSys {
 		wire:   func(r zrec) ([]byte, error) { return cbor.Marshal(prfOf(r)) },
 		unwire: func(data []byte, h *hash.Hash, pub zrec) (bool, error) {
 			p := &zkprm.Proof{}
-			if err := cbor.Unmarshal(data, p); err != nil {
+			if err := safecbor.Unmarshal(data, p); err != nil { // the handlers decode received content with safecbor
 				return false, err
 			}
 			return p.Verify(pubOf(pub), h, nil), nil
@@ -1084,7 +1085,7 @@ func sysMod() *zkSys {
 		wire:   func(r zrec) ([]byte, error) { return cbor.Marshal(prfOf(r)) },
 		unwire: func(data []byte, h *hash.Hash, pub zrec) (bool, error) {
 			p := &zkmod.Proof{}
-			if err := cbor.Unmarshal(data, p); err != nil {
+			if err := safecbor.Unmarshal(data, p); err != nil { // the handlers decode received content with safecbor
 				return false, err
 			}
 			return p.Verify(pubOf(pub), h, nil), nil
